@@ -632,12 +632,14 @@ impl Drop for ZG {
 
 /// bytes currently held from `CountAlloc` (process-wide: blocks may be returned on another thread)
 static COUNTED: std::sync::atomic::AtomicI64 = std::sync::atomic::AtomicI64::new(0);
+static COUNT_CALLS: std::sync::atomic::AtomicI64 = std::sync::atomic::AtomicI64::new(0);
 #[derive(Clone, Copy, Default)]
 pub struct CountAlloc;
 unsafe impl allocator_api2::alloc::Allocator for CountAlloc {
     fn allocate(&self, layout: std::alloc::Layout) -> Result<std::ptr::NonNull<[u8]>, allocator_api2::alloc::AllocError> {
         let p = allocator_api2::alloc::Global.allocate(layout)?;
         COUNTED.fetch_add(layout.size() as i64, Ordering::SeqCst);
+        COUNT_CALLS.fetch_add(1, Ordering::SeqCst);
         Ok(p)
     }
     unsafe fn deallocate(&self, ptr: std::ptr::NonNull<u8>, layout: std::alloc::Layout) {
@@ -891,6 +893,24 @@ fn pool_checks(threads: usize, ids: &[u16], other: &[u16], hb: u8) -> Result<u64
                 if after != before {
                     return Err(format!("{}: {} zero-sized element(s) with drop glue were never dropped (consumer mode {mode}: 0 short-circuit, 1 panic, 2 owning iterator)", ctx("par_drain / into_par_iter"), after - before));
                 }
+            }
+        }
+        // parallel extension by keys that fit into the spare capacity performs no allocation of the table
+        {
+            let total = ids.len() + other.len();
+            let mut cm: HashMap<u16, u16, ModBuild, CountAlloc> = HashMap::with_capacity_and_hasher_in(total, ModBuild(hb), CountAlloc);
+            // (ParallelExtend for HashSet exists for the global allocator only: its capacity is the observable there)
+            let mut cs: HashSet<u16, ModBuild> = HashSet::with_capacity_and_hasher(total, ModBuild(hb));
+            for &i in ids {
+                cm.insert(i, i);
+                cs.insert(i);
+            }
+            let (cap_m, cap_s) = (cm.capacity(), cs.capacity());
+            let calls = COUNT_CALLS.load(Ordering::SeqCst);
+            cm.par_extend(other.par_iter().map(|&i| (i, i)));
+            cs.par_extend(other.par_iter().copied());
+            if COUNT_CALLS.load(Ordering::SeqCst) != calls || cm.capacity() != cap_m || cs.capacity() != cap_s {
+                return Err(format!("{}: extending a map / set of {} elements and capacity {cap_m} / {cap_s} by {} keys re-allocated the table (capacity now {} / {})", ctx("par_extend"), ids.len(), other.len(), cm.capacity(), cs.capacity()));
             }
         }
         // short-circuiting consumer over par_drain: undelivered elements dropped exactly once
